@@ -308,11 +308,51 @@ def mapE {α β ε} (f : α → Except ε β) : List α → Except ε (List β)
           | .error e => .error e
           | .ok ys => .ok (y :: ys)
 
-/-- configureTasks up to the point where the CONFIGURE command is queued. -/
-def configure (tasks : List Task) : Except Err (List Props) :=
+/-- The environment bind map from the tasks' local bind maps, then `BuildPropertyMaps`
+    (configureTasks as it was before the per-task check of the declarations). -/
+def wire (tasks : List Task) : Except Err (List Props) :=
   match build [] (claims tasks) with
   | .error e => .error e
   | .ok bm => mapE (taskProps bm) tasks
+
+/-- The per-task check at the head of configureTasks' task loop: go through the task's inbound
+    channel DECLARATIONS (`MergeInbound(parent.CollectInboundChannels(), class.Bind)`, the list
+    BuildPropertyMap configures) with `aliasOwners : alias → channel name`; a channel whose alias is
+    already owned by a channel of another name is an "illegal redefinition of global channel alias"
+    (`true` = rejected). The launch loop keeps only the LAST claim on an alias in the task's local
+    bind map, so the local bind maps cannot show this. -/
+def aliasScan : List (String × String) → List Inbound → Bool
+  | _, [] => false
+  | owners, c :: cs =>
+      if c.global.isEmpty then aliasScan owners cs
+      else match Assoc.get owners c.global with
+        | some o => if o != c.name then true else aliasScan (Assoc.set owners c.global c.name) cs
+        | none => aliasScan (Assoc.set owners c.global c.name) cs
+
+def redefines (t : Task) : Bool := aliasScan [] t.inbound
+
+/-- Which checks configureTasks performs. -/
+structure Cfg where
+  /-- two inbound channels of ONE task naming one global alias are rejected (`aliasScan`) -/
+  aliasPerTask : Bool
+  deriving DecidableEq, Repr, Inhabited
+
+/-- The code as it is. -/
+def codeCfg : Cfg := { aliasPerTask := true }
+
+/-- The code as it was before `fix: configureTasks rejects a global channel alias claimed by two
+    inbound channels of one task`: aliases are de-duplicated across local bind maps only. -/
+def legacyCfg : Cfg := { aliasPerTask := false }
+
+/-- configureTasks up to the point where the CONFIGURE command is queued. The per-task check
+    and the alias de-duplication of the bind-map loop alternate task by task in the code; both
+    fail with the same error and nothing else can fail before `BuildPropertyMaps`, so "some task
+    is rejected by the scan" can be asked first. -/
+def configureWith (cfg : Cfg) (tasks : List Task) : Except Err (List Props) :=
+  if cfg.aliasPerTask && tasks.any redefines then .error .aliasConflict else wire tasks
+
+/-- The code as it is. -/
+def configure (tasks : List Task) : Except Err (List Props) := configureWith codeCfg tasks
 
 /-! ## workflow templates: iterators and per-instance resolution
 
